@@ -97,7 +97,7 @@ def shards(tier):
                         continue      # quick: the Event-parameter watcher pair only meets programs that touch e early
                     if q and (n1, n2) == (0, 2) and o2 in (D.SET_E, D.TRIGGER_E, D.TRIGGER_AB):
                         continue
-                    c = dict(k=k, n1=n1, n2=n2, o1=o1, o2=o2, kw1=False, kw2=False)
+                    c = dict(k=k, n1=n1, n2=n2, o1=o1, o2=o2, kw1=False, kw2=False, copied=0)
                     if q:
                         c.update(qd1=False, qd2=False)     # callbacks do not assign here, so `queued` is unobservable
                     for j in range(k + 1, 6):
@@ -107,7 +107,7 @@ def shards(tier):
     if q:   # nested contexts: [batch, op, discard|batch, op] + unwinding
         for o2 in (D.SET_A, D.SET_B, D.UPDATE):
             for o3 in (D.DISCARD_ENTER, D.BATCH_ENTER):
-                c = dict(k=4, n1=0, n2=2, o1=D.BATCH_ENTER, o2=o2, o3=o3, kw1=False, kw2=False, o5=0, x5=0, qd1=False, qd2=False)
+                c = dict(k=4, n1=0, n2=2, o1=D.BATCH_ENTER, o2=o2, o3=o3, kw1=False, kw2=False, o5=0, x5=0, qd1=False, qd2=False, copied=0)
                 out.append(dict(name='nest_o%d_%d' % (o2, o3), module='harness.c04', fn='prog', consts=c, budget_s=60))
     # the same programs on a deepcopy / shallow copy of the object the watchers were registered on
     for copied in (1, 2):
